@@ -35,6 +35,14 @@ func main() {
 	boostR = newR(*seed ^ 0x5eed5eed)
 	out := newOut(*outp)
 	g(newR(*seed), *n, *tier, out)
+	// a second stream for the properties whose operations also run inside heap-level programs (heapext.go)
+	if xp, ok := xStreams[prop]; ok {
+		nx := *n / xp.div
+		if nx < xp.min {
+			nx = xp.min
+		}
+		genXHeap(xp.prof)(newR(*seed^0x78686561), nx, *tier, out)
+	}
 	out.close()
 }
 
